@@ -115,7 +115,9 @@ def progFromJson (j : Json) : Prog :=
         body := stmtsFromJson (field f "body") }
     consts := (getArr (field j "consts")).map fun c => (getStr (idx c 0), valFromJson (idx c 1))
     enums := (getArr ((j.getObjVal? "enums").toOption.getD (Json.arr #[]))).map fun e =>
-      (getStr (idx e 0), tyFromJson.variantsFromJson (idx e 1)) }
+      (getStr (idx e 0), tyFromJson.variantsFromJson (idx e 1))
+    constTys := (getArr ((j.getObjVal? "const_tys").toOption.getD (Json.arr #[]))).map fun c =>
+      (getStr (idx c 0), tyFromJson (idx c 1)) }
 
 def panicName : PanicKind → String
   | .overflow => "Overflow" | .divByZero => "DivByZero" | .outOfBounds => "OutOfBounds"
@@ -176,12 +178,12 @@ def bitEval (case : Json) : Json :=
         match acc with
         | some e => some ((x, VTy.ofTy t, v.encode t) :: e)
         | none => none) (some [])
-      match benv with
-      | none => Json.mkObj [("outside", true)]
-      | some benv =>
-        match bitBody prog benv d.body with
+      match benv, constEnv prog with
+      | some benv, some cb =>
+        match bitBody prog (benv ++ cb) d.body with
         | none => Json.mkObj [("outside", true)]
         | some (_, bits, p, _) =>
-          Json.mkObj [("bits", bitsToString bits), ("panic", match p with | some k => Json.str (panicName k) | none => Json.null)]).toArray)]
+          Json.mkObj [("bits", bitsToString bits), ("panic", match p with | some k => Json.str (panicName k) | none => Json.null)]
+      | _, _ => Json.mkObj [("outside", true)]).toArray)]
 
 end GVD
